@@ -120,6 +120,43 @@ TEMPLATE_FILES += [
 ]
 
 
+def minimal_modules():
+    """documents in which each kind of sub-schema occurs exactly ONCE, in each keyword position: every name the generated module
+    mentions (Property, Element, the typed elements, Not/Nothing/AnyOf..., typing names) must be imported on account of that one
+    occurrence alone - the import list is inferred from the text, so this is where an inference rule can be too narrow"""
+    kinds = {
+        "untyped+properties": {"properties": {"id": {"type": "integer"}}, "required": ["id"]},
+        "untyped+required-prop": {"properties": {"id": {}}},
+        "untyped": {"minLength": 2},
+        "string": {"type": "string"}, "integer": {"type": "integer"}, "number": {"type": "number"}, "boolean": {"type": "boolean"},
+        "null": {"type": "null"}, "array": {"type": "array", "items": {"type": "null"}}, "array-any": {"type": "array"},
+        "false": False, "not": {"not": {"type": "null"}}, "anyOf": {"anyOf": [{"type": "string"}, {"type": "null"}]},
+        "oneOf": {"oneOf": [{"minimum": 1}, {"maximum": 0}]}, "allOf": {"allOf": [{"minimum": 1}, {"maximum": 5}]},
+        "type-list": {"type": ["string", "null"]}, "object": {"type": "object", "title": "Inner"},
+        "object+props": {"type": "object", "title": "Inner", "properties": {"x": {"type": "boolean"}}},
+    }
+    positions = {
+        "additionalProperties": lambda k: {"additionalProperties": k},
+        "patternProperties": lambda k: {"patternProperties": {"^x": k}},
+        "dependencies": lambda k: {"dependencies": {"a": k}},
+        "propertyNames": lambda k: {"propertyNames": k},
+        "property": lambda k: {"properties": {"p": k}},
+        "allOf-next-to-object": lambda k: {"allOf": [k]},
+    }
+    out = []
+    for pn, pos in sorted(positions.items()):
+        for kn, k in sorted(kinds.items()):
+            if pn == "propertyNames" and kn.startswith("object"):
+                continue
+            doc = dict({"type": "object", "title": "Envelope"}, **pos(copy.deepcopy(k)))
+            out.append(({"main.json": doc}, "main.json"))
+    # the same under an array root (no object class at the top at all)
+    for kn, k in sorted(kinds.items()):
+        out.append(({"main.json": {"type": "array", "title": "Rows", "items": copy.deepcopy(k)}}, "main.json"))
+        out.append(({"main.json": {"type": "array", "title": "Rows", "items": [copy.deepcopy(k)], "additionalItems": copy.deepcopy(k)}}, "main.json"))
+    return out
+
+
 def run(tier, seed, replay=None):
     from statham.__main__ import main as generate
     from statham.schema.elements.meta import ObjectMeta
@@ -131,7 +168,8 @@ def run(tier, seed, replay=None):
         p = json.load(open(replay))
         batches = [(p["files"], p["entry"])]
     else:
-        batches = list(TEMPLATE_FILES)
+        batches = list(TEMPLATE_FILES) + minimal_modules()
+        stats["minimal_modules"] = len(minimal_modules())
         titles = ["Foo", "foo", "Bar", "Item", "Thing"]
         for i in range(90 if tier == "quick" else 1500):
             s = gen.gen_schema(rng, gen.Cfg(max_depth=3, titles=titles), force_kind=rng.choice(["object", "object", "comp", "array", "multi"]))
